@@ -48,8 +48,15 @@ def _round3(tier, rng):
 
 
 def _round4(tier, rng):
-    cases = sync_gen.core_deep_history_cases() + sync_gen.core_reuse_exclude_cases() + sync_gen.core_clash_cases()
-    return cases if tier != "quick" else rng.sample(cases, 150)
+    hist = sync_gen.core_deep_history_cases()
+    cases = hist + sync_gen.core_reuse_exclude_cases() + sync_gen.core_clash_cases()
+    if tier != "quick":
+        return cases
+    picked = rng.sample(cases, 150)
+    # the process-history family (48) is the only place where deep=True meets filecmp's cache: it is not left to the
+    # sample (seed 0 once drew 11 of them, none a real run with strategy None / always, and a reverted 23d4b64 was
+    # seen as a mismatch without a failing input)
+    return picked + [c for c in hist if c not in picked]
 
 
 def _round8(tier, rng):
